@@ -109,3 +109,26 @@ Proof. exact recorded_checkpoint_all_rw. Qed.
 Print Assumptions C13_oracle_holds_on_model.
 Print Assumptions C13_recorded_checkpoint_is_latest_snapshot.
 Print Assumptions C13_recorded_checkpoint_all_rw.
+
+(** *** ... histories with concurrent pairs included (Ctl/OracleProofsX18.v): both requests of a pair are
+    well-formed and name observed replicas; a quiescence flag is true only where no monitor notification
+    is undelivered after the whole request (pair) *)
+From Jiva Require Import Ctl.OracleProofsX18.
+
+Theorem C13_oracle_holds_on_model_with_pairs : forall xs rf0 n w0 qs, (1 <= rf0)%nat ->
+  forallb (x_all ev_wf) xs = true -> forallb (x_all (ev_addrs_lt n)) xs = true ->
+  xqs_sound (init rf0 w0) xs qs ->
+  walk_q (fun q => lift (c13_step rf0 q) (c13_pair rf0))
+         0 (obs0 rf0 n w0) xs (trace n (init rf0 w0) xs) qs = None.
+Proof. exact c13_oracle_model_x_init. Qed.
+
+(** a snapshot accepted while all RF replicas were listed RW is on every one of them that did not fail it,
+    also after the request that was waiting behind it *)
+Theorem C13_snapshot_survives_queued_request : forall s nm fs b x,
+  struct_ok s -> count_rw (replicas s) = length (replicas s) ->
+  snd (do_snapshot s nm fs) = ROk -> In x (keys (replicas s)) -> flt fs x KSnap = false ->
+  In nm (f_chain (wget (w (fst (fst (step (fst (do_snapshot s nm fs)) b)))) x)).
+Proof. exact snapshot_survives_second. Qed.
+
+Print Assumptions C13_oracle_holds_on_model_with_pairs.
+Print Assumptions C13_snapshot_survives_queued_request.
